@@ -1,4 +1,5 @@
 """C04 — decided on the server model; see lib/srvprops.py and coq/Props/C04.v"""
+import serverlib as sl
 import srvprops
 
 PROP = "C04"
@@ -6,4 +7,4 @@ THEOREMS = ["C04_owner_and_member_gates", "C04_single_owner_reachable"]
 
 
 def run(tier, replay=None):
-    return srvprops.run(PROP, THEOREMS, tier, replay)
+    return srvprops.run(PROP, THEOREMS, tier, replay, extra_gen=sl.kick_histories, rule_note=' plus directed removal histories: an owner removes a member with LEAVE on_behalf, then drops / fills its own limit / the removed member re-joins up to its limit / a namesake reconnects and probes ownership; ends with the CHANNELS-vs-MEMBERS audit (members must be alive)')
